@@ -64,18 +64,20 @@ PROPS = {
     },
     "C04": {
         "level": "proof",
-        "verus": [("daterange", None), ("register", None), ("balance", None), ("bookkeep", ["process_posting", "add_transaction"]),
+        "verus": [("daterange", None), ("register", None), ("balance", None), ("query", ["Ledger::balance", "Balance::round"]), ("bookkeep", ["process_posting", "add_transaction"]),
                   ("amounts", ["AddAssign<Amount> for Amount", "Amount::remove_zero_entries", "Amount::set_partial", "AddAssign<PostingAmount> for Amount", "AddAssign<SingleAmount> for Amount", "TryFrom<&Amount> for PostingAmount"])],
         "family": ("c04", {"quick": [], "thorough": []}),
         "explanation": "Verus proves (a) DateRange::contains is exactly start <= d < end with open ends as infinity, adjacent windows partition their union and empty windows contain nothing, "
                        "is_bypass/require_recompute choose the stored balance only for an unbounded window without per-posting conversion; (b) every update of the running Balance adds the posting to that "
                        "account only and never stores a zero-valued commodity; (c) the register's account filter (AccountFilter::is_match; the selection predicate of AccountFilter::new, sliced) lists a posting "
-                       "exactly when no account was asked for or its account's name EQUALS the argument, and Ledger::postings applies it to the posting's own account (textual anchor).  The re-fold in Ledger::balance "
-                       "and the register's running total are iterator-adapter code and are NOT decided by proof; they are exercised by the c04 family (five ledgers incl. back-dated entries, a declared precision, "
+                       "exactly when no account was asked for or its account's name EQUALS the argument, and Ledger::postings applies it to the posting's own account (textual anchor).  (d) Ledger::balance, the whole function (group `query`, rule R30): "
+                       "with a window (or --historical) the result is the fold, in file order, of Balance::add_amount over exactly the stored postings of the transactions whose date satisfies contains(), rounded once at the end by Balance::round (proved: every account rounded, none added or dropped); "
+                       "without a window the stored whole-history balance is returned as it is; nothing in the ledger is modified.  NOT decided by proof: that the stored whole-history balance equals the fold over ALL stored postings "
+                       "(a data-structure invariant established by ProcessAccumulator, whose construction of Ledger is not under contract) and the register command's running total (cli); they are exercised by the c04 family (five ledgers incl. back-dated entries, a declared precision, "
                        "assignments, and account names that are prefixes of one another x 100 [start, end) windows against the sum of the listed postings; Ledger::postings per account against the whole-history report).",
-        "units_doc": ["core/src/report/query.rs: DateRange::{contains,is_bypass}, BalanceQuery::require_recompute, AccountFilter::is_match, AccountFilter::new (selection predicate, slice)", "core/src/report/balance.rs: Balance::{add_amount, add_posting_amount}"],
-        "assumptions": ["assumed L0 model of chrono::NaiveDate: a totally ordered day number (vx/prelude/chrono.rs)", "assumed: Account::as_str is the account's interned name; HashSet::contains (vstd); `.filter(p).collect()` keeps exactly the elements satisfying p (std)", L0_DECIMAL, L0_HANDLES, L0_STD, L1_AMOUNT],
-        "not_decided": ["Ledger::balance re-fold (flat_map/filter_map closures), Balance::round, RegisterCmd running total"],
+        "units_doc": ["core/src/report/query.rs: DateRange::{contains,is_bypass}, BalanceQuery::require_recompute, AccountFilter::is_match, AccountFilter::new (selection predicate, slice)", "core/src/report/balance.rs: Balance::{add_amount, add_posting_amount, round}", "core/src/report/query.rs: Ledger::balance (whole function)"],
+        "assumptions": ["assumed: std::borrow::Cow modelled by an enum with the same variants; R30: flat_map / filter_map visit outer then inner elements in order (std definition); R25e: values_mut visits every value once", "assumed L0 model of chrono::NaiveDate: a totally ordered day number (vx/prelude/chrono.rs)", "assumed: Account::as_str is the account's interned name; HashSet::contains (vstd); `.filter(p).collect()` keeps exactly the elements satisfying p (std)", L0_DECIMAL, L0_HANDLES, L0_STD, L1_AMOUNT],
+        "not_decided": ["Ledger invariant raw_balance == fold of all stored postings (family only)", "RegisterCmd running total (cli)"],
     },
     "C05": {
         "level": "other",
@@ -232,7 +234,7 @@ PROPS = {
     },
     "C10": {
         "level": "other",
-        "verus": [("convert", ["convert_amount", "PriceRepository::convert_single", "PriceRepository::new"]), ("determinism", ["callsite:Ledger::balance.conversion_order", "Amount::sorted_values"])],
+        "verus": [("convert", ["convert_amount", "PriceRepository::convert_single", "PriceRepository::new"]), ("query", ["Ledger::balance", "Balance::round"]), ("determinism", ["callsite:Ledger::balance.conversion_order", "Amount::sorted_values"])],
         "kani": {"quick": [], "thorough": []},
         "family": ("c10", {"quick": [], "thorough": []}),
         "technique": "contract-based deductive verification: Verus on price_db::convert_amount extracted from /repo (loop invariant: running sum of the holdings converted so far) over the contract of "
@@ -242,16 +244,20 @@ PROPS = {
                        "is linear in the amounts); if some holding has no rate the call fails - nothing is dropped, double-counted or left unconverted; the rates are a function of the records and are not changed by "
                        "converting.  convert_single itself (real body, `entry().or_insert_with(..)` rewritten by rule R29) is proved against the table compute_price_table gives for (target, date): identity for the target "
                        "commodity, value x that table's rate in the target commodity otherwise, failure when the table has no entry, and the memo stays consistent with the records whatever was asked before (a cache keyed "
-                       "by less than (target, date) fails this).  NOT decided by proof: the two branches of Ledger::balance themselves (iterator chains: per posting at the transaction date / per account at `now`, rounding once at the end), "
-                       "EvalOptions::to_conversion; they are exercised, bounded, by the c10 family: 4 ledgers x 3 scalings x declared/undeclared precision x 7 report dates (historical, before / between / on / after the "
+                       "by less than (target, date) fails this).  Ledger::balance, the WHOLE function (group `query`; the flat_map/filter_map loop header rewritten into two nested indexed loops by rule R30, std's Cow modelled): --historical "
+                       "books, for every stored posting of a transaction dated in the window, convert_amount(posting amount, T, transaction date) on the posting's account - and fails iff one of them has no rate; "
+                       "-X at the report date converts every account of the stored (or re-folded) balance on its own with convert_amount(.., T, now), keeps exactly the same accounts, fails iff some account has an unconvertible holding, and rounds once at the end (Balance::round: proved).  "
+                       "NOT decided by proof: EvalOptions::to_conversion (cli glue); bounded stand-in, c10 family: 4 ledgers x 3 scalings x declared/undeclared precision x 7 report dates (historical, before / between / on / after the "
                        "price dates) against a twin written from the statement (direct ledger prices only, so that rate choice - C09 - plays no part).",
-        "units_doc": ["core/src/report/price_db.rs: convert_amount, PriceRepository::{new, convert_single}", "core/src/report/query.rs: Ledger::balance (account order before conversion, sliced; C13)", "core/src/report/eval/amount.rs: Amount::sorted_values (listing behind Amount::iter)"],
+        "units_doc": ["core/src/report/price_db.rs: convert_amount, PriceRepository::{new, convert_single}", "core/src/report/query.rs: Ledger::balance (whole function: both conversion branches; account order before conversion also sliced for C13)", "core/src/report/balance.rs: Balance::round", "core/src/report/eval/amount.rs: Amount::sorted_values (listing behind Amount::iter)"],
         "assumptions": [L0_DECIMAL, L0_HANDLES, L0_STD, L1_AMOUNT,
-                        "requires: convert_amount and convert_single assume the memo is consistent with the records on entry (established by PriceRepository::new, preserved by both: proved); the callers in query.rs are not under contract",
+                        "requires: convert_amount, convert_single and Ledger::balance assume the memo is consistent with the records on entry (established by PriceRepository::new, preserved by all three: proved); Ledger construction (ProcessAccumulator -> Ledger) is not under contract",
+                        "assumed: std::borrow::Cow modelled by an enum with the same variants (into_owned returns the value / an equal clone); R30: flat_map / filter_map visit outer then inner elements in order (std definition); R25e: values_mut visits every value once",
+                        "the report-date conversion of a re-folded balance is stated as: SOME balance whose contents are the rounded register sum was converted account by account (the Amount objects of a local balance cannot be named in a postcondition; conversion is defined over Amount::iter's listing)",
                         "assumed: compute_price_table is a function of (records, target, date) (no hidden state; hash-order independence is C13's neighbour-order obligation); std entry API (R29)",
                         "assumed (R25d): Amount::iter yields every commodity of the amount exactly once (tied to the proved Amount::sorted_values by a textual anchor)"],
         "bounded": ["c10 family: 4 scenarios x scale {1, 2, -3} x T precision {none, 2} x report date {historical, 6 dates} x date range {none; for scale 1 also four [start, end) windows} = 392 queries"],
-        "not_decided": ["Ledger::balance conversion branches (bounded family only)", "which rate is the right one (C09)", "cli EvalOptions::to_conversion / to_date_range"],
+        "not_decided": ["which rate is the right one (C09)", "cli EvalOptions::to_conversion / to_date_range", "that the sum over Amount::iter's listing is independent of the listing order (commutativity of real addition; not needed for the statement)"],
     },
     "C11": {
         "level": "other",
